@@ -1090,6 +1090,15 @@ MUTANTS = [
     dict(id="C13.a-length-prefix-skipped-for-empty", prop="C13", file="crates/stable_hash/src/lib.rs",
          old="    fn write_length_prefix(&mut self, len: usize) { self.write_usize(len); }", new="    fn write_length_prefix(&mut self, len: usize) {\n        if len != 0 {\n            self.write_usize(len);\n        }\n    }",
          expect="C13.a/write_length_prefix/writes-for-every-length"),
+    dict(id="C16.i-D18-reintroduced-trim-stops-at-first-pin", prop="C16", file="crates/storage/src/tiny_lfu/policy.rs",
+         old="                self.lru.shuffle_tail_to_head(lru::Region::Pinned);\n            }\n        }\n", new="                self.lru.shuffle_tail_to_head(lru::Region::Pinned);\n                break;\n            }\n        }\n",
+         expect="C16.i/policy/trim-loop-continues-past-a-pinned-key"),
+    dict(id="C16.h-pinned-candidate-parks-the-probation-head", prop="C16", file="crates/storage/src/tiny_lfu/policy.rs",
+         old="                self.lru.move_least_recent_of_to_new_region(\n                    lru::Region::Window,\n                    lru::Region::Pinned,\n                );", new="                self.lru.move_least_recent_of_to_new_region(\n                    lru::Region::Probation,\n                    lru::Region::Pinned,\n                );",
+         expect="C16.h/policy/the-refused-key-is-the-one-parked"),
+    dict(id="C16.g-maintenance-flag-starts-raised", prop="C16", file="crates/storage/src/tiny_lfu.rs",
+         old="            maintenance_flag: AtomicBool::new(false),", new="            maintenance_flag: AtomicBool::new(true),",
+         expect="C16.g/maintenance/flag-protocol"),
     dict(id="C12.k-varint-reader-u128-stops-on-set-bit", prop="C12", file="crates/serialize/src/postcard.rs",
          old="            result |= u128::from(byte & 0x7F) << shift;\n\n            if byte & 0x80 == 0 {",
          new="            result |= u128::from(byte & 0x7F) << shift;\n\n            if byte & 0x80 != 0 {",
